@@ -314,15 +314,20 @@ def appendColumns (cx : Ctx) (h : Cells) (a : Aln) (rows : Nat) (colsIn : List (
 def eachColumn (cx : Ctx) (runs : List (List QL)) (i : Nat) : List QL :=
   runs.map fun ss => match ss[i]? with | some c => c | none => ⟨cx.gap, 0⟩
 
+/-- one iteration of the loop of `AppendEach`: the scratch column `b` for position `i` is
+    handed to `AppendColumns` -/
+def eachStep (cx : Ctx) (rows : Nat) (runs : List (List QL)) (acc : Option (Cells × Aln)) (i : Nat) :
+    Option (Cells × Aln) :=
+  match acc with
+  | some (h1, a1) => appendColumns cx h1 a1 rows [eachColumn cx runs i]
+  | none => none
+
 /-- `AppendEach(a)`; `none` is the error return -/
 def appendEach (cx : Ctx) (h : Cells) (a : Aln) (rows : Nat) (runs : List (List QL)) :
     Option (Cells × Aln) :=
   if runs.length != rows then none else
   let max := runs.foldl (fun m ss => Nat.max m ss.length) 0
-  (List.range max).foldl (fun (acc : Option (Cells × Aln)) i =>
-    match acc with
-    | some (h1, a1) => appendColumns cx h1 a1 rows [eachColumn cx runs i]
-    | none => none) (some (h, a))
+  (List.range max).foldl (eachStep cx rows runs) (some (h, a))
 
 /-- `s.column(n, pos)`: the entries the added sequences contribute at `pos` -/
 def addColumn (cx : Ctx) (h : Cells) (q : Bool) (seqs : List Lin) (pos : Int) : List QL :=
